@@ -74,3 +74,9 @@ Theorem C07_pin_lexer_sentinel :
   lexer_sentinel_guard = pinned_lexer_sentinel_guard /\ lexer_sentinel_pos = pinned_lexer_sentinel_pos /\
   lexer_leading_blank_pattern = pinned_lexer_leading_blank_pattern.
 Proof. exact (conj pin_lexer_sentinel_guard (conj pin_lexer_sentinel_pos pin_lexer_leading_blank_pattern)). Qed.
+
+(* the lexer, parser and emitter functions are, text for text, the ones the hand-written models were validated against
+   (one digest per function, comments and docstrings excluded; harness/translate/srcdigest_t.py) *)
+From OV Require Import Gen.SrcDigestGen Syn.Pins_SrcDigest.
+Theorem C07_pin_source_text : src_lexer_pinned /\ src_parser_pinned /\ src_emitter_pinned.
+Proof. exact (conj src_lexer_pinned_ok (conj src_parser_pinned_ok src_emitter_pinned_ok)). Qed.
